@@ -7,11 +7,14 @@ import (
 )
 
 // C09: case forms (see coq/Extract/RunC09.v)
-//   (1 bytes)           parsePSIData + toData on a payload unit: the three-way outcome
-//   (2 bytes off mask)  the same after XOR-ing mask into the unit at byte offset off
-//   (3 psidata)         writePSIData, then the outcome of parsing what was written
+//
+//	(1 bytes)           parsePSIData + toData on a payload unit: the three-way outcome
+//	(2 bytes off mask)  the same after XOR-ing mask into the unit at byte offset off
+//	(3 psidata)         writePSIData, then the outcome of parsing what was written
+//
 // outcome: (0 (table ...)) -- one (EIT NIT PAT PMT SDT TOT) entry per delivered table, () = nothing --,
-//          (1 code) error, (2) panic
+//
+//	(1 code) error, (2) panic
 type c09 struct{}
 
 func init() { props["C09"] = c09{} }
